@@ -133,15 +133,15 @@ def e2e_body(line):
     return [line]
 
 
-def check_e2e(ctx, body, why, sync=("0 = TS 4", "0 = B 1000000000"), events=()):
-    text = mk(res=960, sync=list(sync), events=list(events), tracks={"ExpertSingle": body})
+def check_e2e(ctx, body, why, sync=("0 = TS 4", "0 = B 1000000000"), events=(), header="ExpertSingle", drop=DROP):
+    text = mk(res=960, sync=list(sync), events=list(events), tracks={header: body})
     try:
         res = refmodel.model(text)
     except refmodel.OutOfDomain as e:
         linelang.fault("generator left the model's domain: %s (%r)" % (e, body))
     ctx.case(("e2e", text), sample=lambda: dict(body=body, why=why))
     ctx.evaluations += 1
-    e1.check_model(ctx, "must-decode-end-to-end", text, res, msg="%s: section body %r" % (why, body), drop=DROP)
+    e1.check_model(ctx, "must-decode-end-to-end", text, res, msg="%s: section body %r" % (why, body), drop=drop)
 
 
 def run_shard(shard, ctx):
@@ -156,6 +156,7 @@ def run_shard(shard, ctx):
         _tokens(ctx, shard[1])
     elif kind == "nearmiss":
         _nearmiss(ctx)
+        _headers(ctx)
         _runs(ctx)
         _foreign_digits(ctx)
         _shared_text(ctx)
@@ -331,6 +332,23 @@ def _nearmiss(ctx):
         for nm in NEAR_MISS:
             for body in ([g, nm], [nm, g], [g, nm, nm], [g, nm, g.replace("2 =", "5 =")], ["0 = N 0 0", g, nm, "9 = E end"], [good["S"], good["E"], nm, g.replace("2 =", "6 =")]):
                 check_e2e(ctx, body, "near-miss line %r next to a %s line" % (nm, k))
+
+
+def _headers(ctx):
+    """'In an instrument section': every one of the 40 section headers, a body with every N index 0..7, S 2 and E
+    lines (flag lines on lane notes, on an open note, on a chord, with and without a length)."""
+    from ..refmodel import TRACK_HEADERS
+
+    bodies = (
+        ["0 = N 0 0", "2 = N 3 4", "2 = N 5 0", "4 = N 1 1", "4 = N 6 0", "6 = N 7 3", "8 = S 2 7", "9 = E solo", "10 = N 2 0", "10 = N 4 0", "10 = N 5 0", "10 = N 6 0", "12 = N 7 0", "12 = N 6 0"],
+        ["1 = N 4 2", "3 = N 2 0", "3 = N 6 0", "5 = N 1 9", "5 = N 5 5", "7 = N 0 0", "7 = N 5 1", "7 = N 6 2"],
+        ["0 = E a", "0 = S 2 0", "0 = N 1 0", "0 = N 6 0", "1 = N 1 0", "1 = N 5 0"],
+    )
+    for h in TRACK_HEADERS:
+        for b in bodies:
+            # the strum / HOPO / tap state stays in the comparison here: it is the only public trace of a decoded flag datum
+            check_e2e(ctx, b, "section [%s]" % h, header=h, drop=("sp",))
+            check_e2e(ctx, [x + " " for x in b], "section [%s], lines padded" % h, header=h, drop=("sp",))
 
 
 def _runs(ctx):
